@@ -11,6 +11,18 @@ CHECKS = {
    note="DTLS replaced by a stand-in (state/_send_data/_register_data_receiver); transport send never suspends; clocks/random seams replaced by module attributes; bound k on deviations, 600 virtual seconds horizon.",
    design="2/C02"),
 }
+CHECKS["C01"] = dict(
+   level="model_checking",
+   technique="stateless deviation-bounded model checking of the real RTCSctpTransport pair (virtual-time loop, harness-owned wire); safety oracle at every quiescent point",
+   text="Every execution of 8 message-mix drivers (DCEP and negotiated channels, ordered/unordered, str/bytes/empty/multi-fragment, both roles, up to 3 concurrent channels, a 20-fragment message) with at most k (quick 1-2, thorough 2-4) drop/dup/reorder/timer/operation deviations is run on the real code and the exactly-once/in-order/intact clause is evaluated at every quiescent point.",
+   note="DTLS replaced by a stand-in; transport send never suspends; deviation bound k; payload values are channel-tagged patterns.",
+   design="2/C01")
+CHECKS["C06"] = dict(
+   level="model_checking",
+   technique="stateless deviation-bounded model checking of the real RTCSctpTransport pair with reliable and partially reliable channels used concurrently",
+   text="Every execution of 6 drivers mixing reliable, maxRetransmits and maxPacketLifeTime channels (ordered/unordered, a message larger than cwnd) with at most k (quick 2, thorough 3) deviations; at every point whole-message/exact-copy/no-dup/order on partially reliable channels and the C01 clause on reliable ones; at the healed terminal point reliable traffic complete, queues drained and a fresh message delivered on every channel.",
+   note="DTLS stand-in; send never suspends; deviation bound k; expiry driven by the virtual clock.",
+   design="2/C06")
 NOT_YET = {}
 
 def main():
